@@ -225,7 +225,7 @@ func init() {
 		gen: func(r *eng.Rng, idx int, th bool) *eng.Program {
 			cfg := eng.GenConfig(r, "store", false)
 			gp := eng.GenParams{MinBatches: 4, MaxBatches: 16, NKeys: 6 + r.Intn(8), Park: true, Reopen: true, ReopenMid: true,
-				Children: r.Chance(1, 2), Nested: r.Chance(1, 3), ChildOnlyPct: 10, FinalReopen: true, Idle: true, QuietPct: 30}
+				Children: r.Chance(1, 2), Nested: r.Chance(1, 3), ChildOnlyPct: 10, FinalReopen: true, Idle: true, QuietPct: 30, BytelessPct: 6}
 			if idx%6 == 5 {
 				gp.WideKeys = 150 + r.Intn(500)
 				gp.SkewedWide = true
@@ -392,7 +392,7 @@ func init() {
 			b := pickBacking(r, "store", "store", "custom")
 			cfg := eng.GenConfig(r, b, false)
 			gp := eng.GenParams{MinBatches: 4, MaxBatches: 16, NKeys: 4 + r.Intn(8), Park: r.Chance(1, 3), Idle: true,
-				Children: b == "store" && r.Chance(2, 3), ChildOnlyPct: 30, DelOnlyPct: 10}
+				Children: b == "store" && r.Chance(2, 3), ChildOnlyPct: 30, DelOnlyPct: 10, BytelessPct: 8}
 			p := eng.GenProgram(r, "C20", cfg, gp)
 			p.Steps = append(p.Steps, eng.Step{K: "drain"}, eng.Step{K: "gaugesfinal"})
 			return p
